@@ -7,7 +7,7 @@ import json
 import os
 import sys
 import time
-from enum import Enum
+from enum import Enum, IntEnum
 from pathlib import Path
 from typing import Dict, List, Optional
 
@@ -32,6 +32,20 @@ class Color(Enum):
     RED = 1
     GREEN = 2
     BLUE = 3
+
+
+class Level(IntEnum):
+    """An enumeration whose members are also ints (earlier releases hash them as ints)."""
+
+    LOW = 1
+    HIGH = 2
+
+
+class Mode(str, Enum):
+    """An enumeration whose members are also strings."""
+
+    A = "a"
+    B = "b"
 
 
 class Shade(Enum):
@@ -60,6 +74,9 @@ class Leaf(Instrumented, Config):
     e: Param[Color] = Color.RED
     e2: Param[Optional[Shade]]
     od: Param[Optional[int]] = 7  # optional with a default that is not None: None is then an explicit value
+    lv: Param[Optional[Level]]
+    md: Param[Mode] = Mode.A
+    lvs: Param[List[Level]] = []
     m: Meta[int] = 0
     o: Option[str] = "opt"
     p: Meta[Optional[Path]]
